@@ -27,9 +27,11 @@ CONSTANTS TraceFile, OutFile
 Trace == ndJsonDeserialize(TraceFile)
 
 VARIABLES l, viol, done,
+          gclo,     \* <<>>, or <<S>> after a GC until the next live observation: the index lists at least S (and at most
+                    \* `indexed`); the observation then fixes `indexed` (see GCIndexLower in StoreModel.tla)
           par,      \* the operations of the concurrent tail in progress (<<>> outside one)
           lost      \* the concurrent tail ended in a state no sequential order explains: the model state is unknown
-vars == <<l, g, content, tags, indexed, stray, tagann, viol, done, par, lost>>
+vars == <<l, g, content, tags, indexed, stray, tagann, viol, done, gclo, par, lost>>
 
 Rec == Trace[l]
 NoG == [n |-> 0]
@@ -37,14 +39,14 @@ NoG == [n |-> 0]
 V(checks) == viol' = viol \cup {[t |-> Rec.t, i |-> Rec.i, inv |-> c[1]] : c \in {c \in checks : ~c[2]}}
 
 Init == l = 1 /\ g = NoG /\ content = {} /\ tags = <<>> /\ indexed = {} /\ stray = {} /\ tagann = <<>> /\ viol = {} /\ done = FALSE
-        /\ par = <<>> /\ lost = FALSE
+        /\ par = <<>> /\ lost = FALSE /\ gclo = <<>>
 
 EvInit ==
   /\ Rec.e = "init"
   /\ g' = Rec /\ content' = {} /\ indexed' = {} /\ stray' = {}
   /\ tags' = [r \in Rng(Rec.refs) |-> 0]
   /\ tagann' = [r \in Rng(Rec.refs) |-> ""]
-  /\ par' = <<>> /\ lost' = FALSE
+  /\ par' = <<>> /\ lost' = FALSE /\ gclo' = <<>>
   /\ UNCHANGED viol
 
 \* mutating operations
@@ -55,6 +57,7 @@ EvOp ==
      /\ tagann' = IF Rec.op = "tag" /\ x.res = "ok" THEN [tagann EXCEPT ![Rec.ref] = Rec.ann] ELSE tagann
      /\ V({<<"OpResult", Rec.res = x.res>>,
            <<"NoHang", Rec.res # "hang">>})
+  /\ gclo' = IF Rec.op = "gc" /\ IsOci THEN <<GCIndexLower(Present, tags, indexed)>> ELSE gclo
   /\ UNCHANGED <<g, par, lost>>
 
 \* queries
@@ -71,11 +74,11 @@ EvQuery ==
          [] Rec.op = "tags" -> {<<"TagsListing", /\ Rec.res = "ok" /\ Rec.list = Rec.sorted
                                                   /\ Rng(Rec.list) = {r \in Refs : tags[r] # 0 /\ r \in Rng(Rec.gt)}
                                                   /\ Len(Rec.list) = Cardinality(Rng(Rec.list))>>})
-  /\ UNCHANGED <<g, content, tags, indexed, stray, tagann, par, lost>>
+  /\ UNCHANGED <<g, content, tags, indexed, stray, tagann, gclo, par, lost>>
 
 \* an observation of a store (the live one or a reopened one): o = [exists, fetchok, tags, bydigest, pred, taglist]
 TagPairs(T) == {<<r, T[r]>> : r \in {q \in Refs : T[q] # 0}}
-ObsChecks(o, pfx) ==
+ObsChecksIx(o, pfx, ix) ==
   {<<pfx \o "Exists", Rng(o.exists) = Present>>,
    <<pfx \o "Fetch", Rng(o.fetchok) = Present>>,
    <<pfx \o "Tags", {<<o.tags[i][1], o.tags[i][2]>> : i \in 1..Len(o.tags)} = TagPairs(tags)>>,
@@ -83,14 +86,23 @@ ObsChecks(o, pfx) ==
    <<pfx \o "ExistsPlain", Rng(o.existsplain) = Present /\ Rng(o.fetchplain) = Present>>,
    <<pfx \o "Pred", \A n \in Nodes : Rng(o.pred[n]) = Pred(content, n)>>,
    <<pfx \o "PredNoDup", \A n \in Nodes : Len(o.pred[n]) = Cardinality(Rng(o.pred[n]))>>,
-   <<pfx \o "ByDigest", IsOci => /\ Rng(o.byindex) = indexed
-                                 /\ Rng(o.byblob) = Present \ indexed>>,
+   <<pfx \o "ByDigest", IsOci => /\ Rng(o.byindex) = ix
+                                 /\ Rng(o.byblob) = Present \ ix>>,
    <<pfx \o "TagList", IsOci => Rng(o.taglist) = {r \in Refs : tags[r] # 0}>>}
 
+ObsChecks(o, pfx) == ObsChecksIx(o, pfx, indexed)
+\* the first live observation after a GC fixes which of the permitted referrers the index lists
+Binds == gclo # <<>> /\ Rec.mode = "live" /\ ~lost /\ IsOci
 EvObs ==
   /\ Rec.e = "obs"
-  /\ V(IF lost THEN {} ELSE ObsChecks(Rec.o, IF Rec.mode = "live" THEN "Live" ELSE "Reopen"))
-  /\ UNCHANGED <<g, content, tags, indexed, stray, tagann, par, lost>>
+  /\ IF Binds
+     THEN /\ V(ObsChecksIx(Rec.o, "Live", Rng(Rec.o.byindex))
+               \cup {<<"LiveByDigest", gclo[1] \subseteq Rng(Rec.o.byindex) /\ Rng(Rec.o.byindex) \subseteq indexed>>})
+          /\ indexed' = Rng(Rec.o.byindex) \cap indexed
+          /\ gclo' = <<>>
+     ELSE /\ V(IF lost THEN {} ELSE ObsChecks(Rec.o, IF Rec.mode = "live" THEN "Live" ELSE "Reopen"))
+          /\ UNCHANGED <<indexed, gclo>>
+  /\ UNCHANGED <<g, content, tags, stray, tagann, par, lost>>
 
 \* the raw directory of an OCI layout
 EvDisk ==
@@ -102,12 +114,12 @@ EvDisk ==
         <<"DiskNamedEntriesResolve", Rec.danglingnamed = 0>>,
         <<"DiskIndexTags", ~Rec.saved \/ {<<Rec.entries[i][1], Rec.entries[i][2]>> : i \in {j \in 1..Len(Rec.entries) : Rec.entries[j][1] # ""}}
                                = TagPairs(tags)>>})
-  /\ UNCHANGED <<g, content, tags, indexed, stray, tagann, par, lost>>
+  /\ UNCHANGED <<g, content, tags, indexed, stray, tagann, gclo, par, lost>>
 
 EvReopenErr ==
   /\ Rec.e = "reopenerr"
   /\ V({<<"ReopenOpens", FALSE>>})
-  /\ UNCHANGED <<g, content, tags, indexed, stray, tagann, par, lost>>
+  /\ UNCHANGED <<g, content, tags, indexed, stray, tagann, gclo, par, lost>>
 
 \* ----- the concurrent tail (C06, last clause): "after concurrent operations quiesce the state is the one some
 \* sequential order of the same operations would produce, and no operation ever returned bytes that do not match
@@ -127,28 +139,32 @@ Matches(o, f) ==
   /\ {<<o.tags[i][1], o.tags[i][2]>> : i \in 1..Len(o.tags)} = {<<r, f.tags[r]>> : r \in {q \in Refs : f.tags[q] # 0}}
   /\ (IsOci => \A i \in 1..Len(o.tags) : o.tags[i][1] \in Refs => o.tags[i][3] = f.tagann[o.tags[i][1]])
   /\ \A n \in Nodes : Rng(o.pred[n]) = Pred(f.content, n)
-  /\ (IsOci => Rng(o.byindex) = f.indexed /\ Rng(o.byblob) = pres \ f.indexed)
+  /\ (IsOci => /\ Rng(o.byblob) = pres \ Rng(o.byindex)
+                /\ IF \E k \in 1..Len(par) : par[k].op = "gc"      \* a GC in the tail: the index within its bounds
+                   THEN {f.tags[r] : r \in {q \in Refs : f.tags[q] # 0}} \subseteq Rng(o.byindex) /\ Rng(o.byindex) \subseteq f.indexed
+                   ELSE Rng(o.byindex) = f.indexed)
 
-EvPar == Rec.e = "par" /\ par' = <<>> /\ UNCHANGED <<g, content, tags, indexed, stray, tagann, viol, lost>>
+EvPar == Rec.e = "par" /\ par' = <<>> /\ UNCHANGED <<g, content, tags, indexed, stray, tagann, viol, lost, gclo>>
 EvPop ==
   /\ Rec.e = "pop"
   /\ par' = Append(par, Rec)
   /\ V({<<"ConcurrentNoHang", Rec.res # "hang">>,
         <<"ConcurrentFetchMatches", (Rec.op = "fetch" /\ Rec.res = "ok") => Rec.bytesok>>})
-  /\ UNCHANGED <<g, content, tags, indexed, stray, tagann, lost>>
+  /\ UNCHANGED <<g, content, tags, indexed, stray, tagann, lost, gclo>>
 EvParHang == Rec.e = "parhang" /\ V({<<"ConcurrentNoHang", FALSE>>}) /\ lost' = TRUE
-             /\ UNCHANGED <<g, content, tags, indexed, stray, tagann, par>>
+             /\ UNCHANGED <<g, content, tags, indexed, stray, tagann, par, gclo>>
 EvParEnd ==
   /\ Rec.e = "parend"
   /\ LET good == {f \in Finals(Cur, 1..Len(par)) : Matches(Trace[l + 1].o, f)} IN
      IF good # {}
      THEN LET f == CHOOSE x \in good : TRUE IN
-          /\ content' = f.content /\ tags' = f.tags /\ indexed' = f.indexed /\ stray' = f.stray /\ tagann' = f.tagann
+          /\ content' = f.content /\ tags' = f.tags /\ stray' = f.stray /\ tagann' = f.tagann
+          /\ indexed' = IF IsOci THEN Rng(Trace[l + 1].o.byindex) \cap f.indexed ELSE f.indexed
           /\ UNCHANGED <<viol, lost>>
      ELSE /\ V({<<"ConcurrentSerializable", FALSE>>}) /\ lost' = TRUE
           /\ UNCHANGED <<content, tags, indexed, stray, tagann>>
   /\ par' = <<>>
-  /\ UNCHANGED g
+  /\ UNCHANGED <<g, gclo>>
 
 Step ==
   /\ l <= Len(Trace)
@@ -160,7 +176,7 @@ Finish ==
   /\ l = Len(Trace) + 1 /\ ~done
   /\ done' = TRUE
   /\ JsonSerialize(OutFile, [consumed |-> l - 1, viol |-> viol])
-  /\ UNCHANGED <<l, g, content, tags, indexed, stray, tagann, viol, par, lost>>
+  /\ UNCHANGED <<l, g, content, tags, indexed, stray, tagann, viol, gclo, par, lost>>
 
 Next == Step \/ Finish
 Spec == Init /\ [][Next]_vars
